@@ -535,12 +535,26 @@ double iwstrtod(const char *str, char **end) {
       errno = ERANGE;
       goto done;
     }
-    if (d == 2.2250738585072012 && e <= -308) {
+    if (d == 2.2250738585072012 && e == -308) { // only this exponent: 2.2250738585072012e-309 is ten times smaller
       d *= 1.0e-308;
       a = p;
       goto done;
     }
-    d *= pow(10.0, (double) e);
+    if ((e >= -308) && (e <= 308)) {
+      d *= pow(10.0, (double) e);
+    } else if ((d != 0.0) && isfinite(d)) {
+      // pow(10, e) alone leaves the double range (ERANGE) or is a subnormal with few bits although the number itself
+      // (0.001e310, 1000e-326, 5e-324) is representable: scale in steps of 1e300. Zero stays zero (0e400).
+      for ( ; e > 300 && isfinite(d); e -= 300) {
+        d *= 1e300;
+      }
+      for ( ; e < -300 && d != 0.0; e += 300) {
+        d *= 1e-300;
+      }
+      if ((d != 0.0) && isfinite(d)) {
+        d *= pow(10.0, (double) e); // |e| <= 300; an underflow gives the nearest double, zero
+      }
+    }
     a = p;
   } else if (p > str && !iwchars_is_digit(*(p - 1))) {
     a = str;
@@ -548,6 +562,9 @@ double iwstrtod(const char *str, char **end) {
   }
 
 done:
+  if (!isfinite(d)) {
+    errno = ERANGE; // the digits denote a number beyond the double range: not a value (printed it would be `inf`)
+  }
   if (end) {
     *end = (char*) a;
   }
